@@ -242,6 +242,15 @@ static bool end_dchunk(zckCtx *zck, zckComp *comp, const bool use_dict,
                         ZSTD_getErrorName(retval));
         goto decomp_error_2;
     }
+    /* The chunk has to decompress to exactly the size the index declares,
+     * otherwise we'd hand out padding (or drop data) that isn't in the file */
+    if(retval != fd_size) {
+        set_fatal_error(zck, "Chunk decompressed to %llu bytes, but index "
+                        "says it should be %llu bytes",
+                        (long long unsigned) retval,
+                        (long long unsigned) fd_size);
+        goto decomp_error_2;
+    }
     if(!comp_add_to_dc(zck, comp, dst, fd_size))
         goto decomp_error_2;
     free(dst);
